@@ -28,6 +28,9 @@ def file_props():
             m[f].append(d["id"])
     # files no property anchors directly
     m.setdefault("internal/hash/maphash/maphash_go118.go", ["C07"])
+    # helpers and constants used by more entry points than the properties anchor them in
+    m["protocol/thrift/utils.go"] += ["C02", "C08", "C17"]
+    m["protocol/thrift/thrift.go"] += ["C01", "C17", "C02", "C03"]
     for f in m:
         m[f] = sorted(set(m[f]), key=COST.index)
     return m
